@@ -298,10 +298,41 @@ C06Type(Ctx &c)
  * C18: CDF values
  *############################################################################*/
 template <class I>
+I
+C18Min(uint64_t n, int variant)
+{
+  using Lim = std::numeric_limits<I>;
+  switch (variant % 6) {
+    case 0: return std::is_signed_v<I> ? static_cast<I>(-3) : static_cast<I>(2);
+    case 1: return static_cast<I>(0);
+    case 2: return static_cast<I>(95);
+    case 3: return static_cast<I>(100000);
+    case 4: return static_cast<I>(static_cast<I128>(Lim::max()) - static_cast<I128>(n) + 1);
+    default: return std::is_signed_v<I> ? static_cast<I>(-static_cast<I128>(n) - 40 + 100) : static_cast<I>(1000);
+  }
+}
+
+template <class I>
+void
+C18ExactImpl(Ctx &c, uint64_t n, double alpha, I mn);
+
+template <class I>
 void
 C18Exact(Ctx &c, uint64_t n, double alpha)
 {
-  const I mn = std::is_signed_v<I> ? static_cast<I>(-3) : static_cast<I>(2);
+  const I mn = C18Min<I>(n, static_cast<int>(c.case_no));
+  try {
+    C18ExactImpl<I>(c, n, alpha, mn);
+  } catch (const std::exception &e) {
+    Violate("C18", "Zipf:constructor-or-GetCDF-threw",
+            ParamStr<I>("Zipf", mn, static_cast<I128>(mn) + static_cast<I128>(n) - 1, alpha) + " threw " + e.what());
+  }
+}
+
+template <class I>
+void
+C18ExactImpl(Ctx &c, uint64_t n, double alpha, I mn)
+{
   const I mx = static_cast<I>(static_cast<I128>(mn) + static_cast<I128>(n) - 1);
   ZipfDistribution<I> d{mn, mx, alpha};
   long double total = 0;
@@ -339,9 +370,25 @@ C18Exact(Ctx &c, uint64_t n, double alpha)
 
 template <class I>
 void
+C18ApproxImpl(Ctx &c, uint64_t n, double alpha, bool full, I mn);
+
+template <class I>
+void
 C18Approx(Ctx &c, uint64_t n, double alpha, bool full)
 {
-  const I mn = std::is_signed_v<I> ? static_cast<I>(-7) : static_cast<I>(1);
+  const I mn = C18Min<I>(n, static_cast<int>(c.case_no + 3));
+  try {
+    C18ApproxImpl<I>(c, n, alpha, full, mn);
+  } catch (const std::exception &e) {
+    Violate("C18", "ApproxZipf:constructor-or-GetCDF-threw",
+            ParamStr<I>("ApproxZipf", mn, static_cast<I128>(mn) + static_cast<I128>(n) - 1, alpha) + " threw " + e.what());
+  }
+}
+
+template <class I>
+void
+C18ApproxImpl(Ctx &c, uint64_t n, double alpha, bool full, I mn)
+{
   const I mx = static_cast<I>(static_cast<I128>(mn) + static_cast<I128>(n) - 1);
   ApproxZipfDistribution<I> a{mn, mx, alpha};
   const auto ps = ParamStr<I>("ApproxZipf", mn, mx, alpha);
@@ -578,8 +625,12 @@ C19Type(Ctx &c)
     r.Next();
     if (!mine) continue;
     rr.Seed(rr.Next() + i);
-    C19One<I, ZipfDistribution>(c, "Zipf", rr);
-    C19One<I, ApproxZipfDistribution>(c, "ApproxZipf", rr);
+    try {
+      C19One<I, ZipfDistribution>(c, "Zipf", rr);
+      C19One<I, ApproxZipfDistribution>(c, "ApproxZipf", rr);
+    } catch (const std::exception &e) {
+      Violate("C19", "exception-on-admissible-parameters", Fmt("type %s: %s", TypeName<I>(), e.what()));
+    }
   }
   if (c.Mine()) {
     C19Reject<I, ZipfDistribution>(c, "Zipf", r);
